@@ -148,9 +148,10 @@ def run(ctx):
             common = dict(predictor_with_uncertainty=unc, **kw)
             if unc:
                 common.update(optimizer="advi", n_iter=3)
-            specs.append(("density-" + gp, lambda c=common: mellon.DensityEstimator(cov_func=kern, **c).fit(X).predict, X, False))
-            specs.append(("dim-" + gp, lambda c=common: mellon.DimensionalityEstimator(k=4, **c).fit(X).predict, X, False))
-            specs.append(("time-" + gp, lambda c=common: mellon.TimeSensitiveDensityEstimator(ls_time=1.0, **c).fit(Xt).predict, Xt, True))
+            u_ = "-unc" if unc else "-plain"      # tags name the files written below: they must be unique
+            specs.append(("density-" + gp + u_, lambda c=common: mellon.DensityEstimator(cov_func=kern, **c).fit(X).predict, X, False))
+            specs.append(("dim-" + gp + u_, lambda c=common: mellon.DimensionalityEstimator(k=4, **c).fit(X).predict, X, False))
+            specs.append(("time-" + gp + u_, lambda c=common: mellon.TimeSensitiveDensityEstimator(ls_time=1.0, **c).fit(Xt).predict, Xt, True))
     if not ctx.thorough:
         specs.append(("density-full-nounc", lambda: mellon.DensityEstimator(n_landmarks=0).fit(X).predict, X, False))
         specs.append(("time-chol-nounc", lambda: mellon.TimeSensitiveDensityEstimator(ls_time=1.0, n_landmarks=6).fit(Xt).predict, Xt, True))
